@@ -711,10 +711,19 @@ pub fn run(tier: Tier) -> i32 {
     });
     rep.extra.insert("supplementary_sampled".into(), json!({"cases": st.evals, "seed": seed, "note": "pseudo-random f64 bit patterns and 128-bit integers; sampling, not enumeration"}));
     rep.add(st);
+    // the bytes on a real wire: zlink-tokio / zlink-smol transports, a raw reader at the other end
+    rep.require_goal("message-of-more-than-100KB-over-a-real-socket");
+    rep.rule.push_str("; plus (child process `sockets c03-child`) the raw bytes a std reader takes off a real socket pair whose other end is a zlink connection over the zlink-tokio / zlink-smol transport: sequences of 1..2 (thorough 3) messages of 300 B .. 150 KB with characters that need escaping, x how much the reader takes off per pending sender poll (nothing until the sender stalls, 4 KiB, 64 KiB, everything) x smallest / default socket buffers; must equal serde_json's encodings each followed by one NUL");
+    if let Err(code) = crate::common::child_phase_bin(&mut rep, "main", "sockets", "c03-child", tier, "raw-wire-bytes/tokio+smol(child)") {
+        return code;
+    }
     rep.finish()
 }
 
 pub fn replay(v: &Value) -> Replayed {
+    if let Some(r) = crate::common::replay_child(v) {
+        return r;
+    }
     if v["kind"] == "dfs" {
         let h = &v["harness"];
         let t = Trees { depth: h["depth"].as_u64().unwrap_or(2) as usize, max_children: h["max_children"].as_u64().unwrap_or(2) as usize, max_entries: h["max_entries"].as_u64().unwrap_or(1) as usize, alphabet: h["alphabet"].as_u64().unwrap_or(0) as u8, buffer_lengths: h["buffer_lengths"].as_bool().unwrap_or(false) };
